@@ -1,5 +1,7 @@
 import SpecVerif.Proofs.Lemmas.Shift
 import SpecVerif.Proofs.Lemmas.AdaptLoop
+import SpecVerif.Proofs.Lemmas.ShiftLS
+import SpecVerif.Proofs.C14
 import SpecVerif.Proofs.C01
 import SpecVerif.Proofs.C08
 import SpecVerif.Model.Arma
@@ -26,9 +28,22 @@ import SpecVerif.Model.Sides
   all bins and the data power is unchanged by a unimodular modulation, so the loops on the data and on
   the modulated data make the same number of passes, and the weights table and the adaptive mean are
   rotated by `m` bins (helpers: `Proofs/Lemmas/AdaptLoop.lean`, namespace `SpecVerif.AdaptL`).
+
+  Covariance / modified covariance methods (`arcovar`, `modcovar`, `pcovar`, `pmodcovar`; section 8, helpers
+  `Proofs/Lemmas/ShiftLS.lean`, namespace `SpecVerif.ShiftLSL`): no longer covered by the test oracle only.
+  The least-squares solver is a parameter of the model (contract "returns a minimiser", C14), so the
+  theorems are relative to that contract: `arcovar_mod` / `modcovar_mod` (`arcovar_conj` / `modcovar_conj`)
+  say that the twisted (conjugated) vector solves the normal equations of the modulated (conjugated) data iff
+  the vector solves those of the data, with the same prediction-error energy; `*_mod_unique`,
+  `*_conj_unique` conclude `a' = twist μ a` (`a' = conj a`), `e' = e` for the values returned by the model
+  when both returned vectors satisfy their normal equations and the Gram matrix of the data is nonsingular
+  (`GramInj`; over `ℝ`/`ℂ` implied by full column rank, `ls_gramInj_of_fullColRank`); `covar_psd_shift`,
+  `modcovar_psd_shift` (`*_psd_mirror`) are the rotation by `m` bins (the mirror) of the AR spectrum.  Time
+  reversal of the modified covariance method is `modcovar_timerev` (section 7, no contract needed).
 -/
 namespace SpecVerif.C04
 open Finset SpecVerif SpecVerif.ArmaL SpecVerif.ShiftL SpecVerif.MtmL SpecVerif.AdaptL
+open SpecVerif.LSL SpecVerif.ShiftLSL
 
 variable {K : Type} [Field K] [StarRing K]
 
@@ -485,6 +500,373 @@ theorem multitaper_timerev [ReOrd K] {ω : K} {nfft : ℕ} (hn : 0 < nfft) (hω 
         (pmtmWeights method x lams (mtSkAbs2 (twiddles ω nfft) x tapers nfft) nfft tolc)
         nfft lams.length := by
   rw [mtSkAbs2_trconj hn hω hstar x hN tapers hw hsym, pmtmWeights_trconj]
+
+/-! ### 8. covariance and modified covariance methods (least squares, relative to the solver contract)
+
+`arcovar` / `modcovar` hand the 'covariance' / 'modified' data matrix to `lstsq`, a parameter of the model
+with contract "returns a minimiser" (C14).  As in `C03.arcovar_scale` the statements are therefore about
+ANY coefficient vector satisfying the normal equations (`NormalEq`), then — under the solver contract for
+both calls and uniqueness of the solution for the data (`GramInj`: the Gram matrix `X_cᴴX_c` is nonsingular;
+over `ℝ`/`ℂ` implied by full column rank `ColInj`) — about the returned values. -/
+
+/-- the two uniqueness conditions unfolded: `GramInj` — the Gram matrix `X_cᴴX_c` of the `r × p` regressor
+block has a trivial kernel; `ColInj` — the block has full column rank -/
+theorem ls_rank_defs (Xc : ℕ → ℕ → K) (r p : ℕ) :
+    (GramInj Xc r p ↔ ∀ d : ℕ → K,
+      (∀ b, b < p → ∑ i ∈ range r, star (Xc i b) * ∑ j ∈ range p, Xc i j * d j = 0) →
+        ∀ j, j < p → d j = 0) ∧
+    (ColInj Xc r p ↔ ∀ d : ℕ → K,
+      (∀ i, i < r → ∑ j ∈ range p, Xc i j * d j = 0) → ∀ j, j < p → d j = 0) :=
+  ⟨Iff.rfl, Iff.rfl⟩
+
+/-- **uniqueness**: with a nonsingular Gram matrix the normal equations of `[X_1 | X_c]` have at most one
+solution (on the `p` coefficients that enter them) -/
+theorem ls_unique (X1 : ℕ → K) (Xc : ℕ → ℕ → K) (r p : ℕ) (a a' : ℕ → K) (hG : GramInj Xc r p)
+    (h : NormalEq X1 Xc r p a) (h' : NormalEq X1 Xc r p a') : ∀ j, j < p → a' j = a j :=
+  normalEq_unique hG h h'
+
+/-- over `ℝ`/`ℂ` (any `RCLike`) full column rank of the regressor block makes the Gram matrix nonsingular -/
+theorem ls_gramInj_of_fullColRank {𝕜 : Type} [RCLike 𝕜] (Xc : ℕ → ℕ → 𝕜) (r p : ℕ)
+    (hC : ColInj Xc r p) : GramInj Xc r p :=
+  gramInj_of_colInj hC
+
+/-- **covariance method on modulated data** (`|μ| = 1`): the twisted vector `a_j ↦ μ^{j+1} a_j` (the
+convention of `aryule_mod`, `burg_mod`: `twist`) satisfies the normal equations of the 'covariance' data
+matrix of `x_n·μ^n` iff `a` satisfies those of `x`, and the forward prediction-error energy (the returned
+`e`, see `C14.arcovar_error`) is the same. -/
+theorem arcovar_mod {μ : K} (hμ : μ * star μ = 1) (x : List K) (p : ℕ) (a : ℕ → K) :
+    (NormalEq (col0 (corrmtx (modulate μ x) p .covariance))
+        (colR (corrmtx (modulate μ x) p .covariance)) ((modulate μ x).length - p) p
+        (fun j => μ ^ (j + 1) * a j)
+      ↔ NormalEq (col0 (corrmtx x p .covariance)) (colR (corrmtx x p .covariance))
+          (x.length - p) p a) ∧
+    fwdEnergy (modulate μ x) p (fun j => μ ^ (j + 1) * a j) = fwdEnergy x p a :=
+  ⟨covariance_normalEq_modulate hμ x p a, fwdEnergy_modulate hμ x p a⟩
+
+/-- the prediction errors behind `arcovar_mod` / `modcovar_mod`: at the twisted coefficients the forward
+error of the modulated data at `t ≥ p` is `μ^t` times the forward error of the data, the backward error of
+the window starting at `s` is `μ^s` times the backward error of the data -/
+theorem prediction_errors_mod {μ : K} (hμ : μ * star μ = 1) (x : List K) (p : ℕ) (a : ℕ → K) :
+    (∀ t, p ≤ t →
+      fwdErr (modulate μ x) p (fun j => μ ^ (j + 1) * a j) t = μ ^ t * fwdErr x p a t) ∧
+    (∀ s, bwdErr (modulate μ x) p (fun j => μ ^ (j + 1) * a j) s = μ ^ s * bwdErr x p a s) :=
+  ⟨fun _ ht => fwdErr_modulate μ x p a ht, fun s => bwdErr_modulate hμ x p a s⟩
+
+/-- **modified covariance method on modulated data**: the same for the forward + backward problem
+('modified' data matrix, `2(N-p)` rows); the sum of the forward and backward energies is the same. -/
+theorem modcovar_mod {μ : K} (hμ : μ * star μ = 1) (x : List K) (p : ℕ) (a : ℕ → K) :
+    (NormalEq (col0 (corrmtx (modulate μ x) p .modified))
+        (colR (corrmtx (modulate μ x) p .modified)) (2 * ((modulate μ x).length - p)) p
+        (fun j => μ ^ (j + 1) * a j)
+      ↔ NormalEq (col0 (corrmtx x p .modified)) (colR (corrmtx x p .modified))
+          (2 * (x.length - p)) p a) ∧
+    fwdEnergy (modulate μ x) p (fun j => μ ^ (j + 1) * a j)
+        + bwdEnergy (modulate μ x) p (fun j => μ ^ (j + 1) * a j)
+      = fwdEnergy x p a + bwdEnergy x p a :=
+  ⟨modified_normalEq_modulate hμ x p a, by rw [fwdEnergy_modulate hμ, bwdEnergy_modulate hμ]⟩
+
+/-- **`arcovar` on modulated data**: if `arcovar` returns `(a, e)` on `x` and `(a', e')` on `x_n·μ^n`,
+both coefficient vectors satisfy the normal equations of their data matrix (contract of the least-squares
+solver, as in `C14.arcovar_error`) and the normal equations of `x` have a unique solution, then
+`a' = twist μ a` (`a'_j = μ^{j+1} a_j`) and `e' = e`. -/
+theorem arcovar_mod_unique [IsZero K] {μ : K} (hμ : μ * star μ = 1) (x : List K) (p : ℕ)
+    (a a' : List K) (e e' : K)
+    (h : arcovar x p = some (a, e)) (h' : arcovar (modulate μ x) p = some (a', e'))
+    (hne : NormalEq (col0 (corrmtx x p .covariance)) (colR (corrmtx x p .covariance))
+      (x.length - p) p (nth a))
+    (hne' : NormalEq (col0 (corrmtx (modulate μ x) p .covariance))
+      (colR (corrmtx (modulate μ x) p .covariance)) ((modulate μ x).length - p) p (nth a'))
+    (hG : GramInj (colR (corrmtx x p .covariance)) (x.length - p) p) :
+    a' = twist μ a ∧ e' = e := by
+  obtain ⟨hag, hA⟩ := twist_of_unique hμ (ArmaEstL.arcovar_length x p a e h)
+    (ArmaEstL.arcovar_length _ p a' e' h')
+    (P := fun f => NormalEq (col0 (corrmtx x p .covariance)) (colR (corrmtx x p .covariance))
+      (x.length - p) p f)
+    (P' := fun f => NormalEq (col0 (corrmtx (modulate μ x) p .covariance))
+      (colR (corrmtx (modulate μ x) p .covariance)) ((modulate μ x).length - p) p f)
+    (fun f => covariance_normalEq_modulate hμ x p f) (fun f hf => normalEq_unique hG hne hf) hne'
+  refine ⟨hA, ?_⟩
+  rw [(C14.arcovar_error _ p a' e' h' hne').1, (C14.arcovar_error x p a e h hne).1,
+    ← twist_untwist hμ (nth a'), fwdEnergy_modulate hμ]
+  exact fwdEnergy_congr x p hag
+
+/-- **`modcovar` on modulated data**: the same for the modified covariance method. -/
+theorem modcovar_mod_unique [IsZero K] {μ : K} (hμ : μ * star μ = 1) (x : List K) (p : ℕ)
+    (a a' : List K) (e e' : K)
+    (h : modcovar x p = some (a, e)) (h' : modcovar (modulate μ x) p = some (a', e'))
+    (hne : NormalEq (col0 (corrmtx x p .modified)) (colR (corrmtx x p .modified))
+      (2 * (x.length - p)) p (nth a))
+    (hne' : NormalEq (col0 (corrmtx (modulate μ x) p .modified))
+      (colR (corrmtx (modulate μ x) p .modified)) (2 * ((modulate μ x).length - p)) p (nth a'))
+    (hG : GramInj (colR (corrmtx x p .modified)) (2 * (x.length - p)) p) :
+    a' = twist μ a ∧ e' = e := by
+  obtain ⟨hag, hA⟩ := twist_of_unique hμ (ArmaEstL.lsFit_length _ _ p a e h)
+    (ArmaEstL.lsFit_length _ _ p a' e' h')
+    (P := fun f => NormalEq (col0 (corrmtx x p .modified)) (colR (corrmtx x p .modified))
+      (2 * (x.length - p)) p f)
+    (P' := fun f => NormalEq (col0 (corrmtx (modulate μ x) p .modified))
+      (colR (corrmtx (modulate μ x) p .modified)) (2 * ((modulate μ x).length - p)) p f)
+    (fun f => modified_normalEq_modulate hμ x p f) (fun f hf => normalEq_unique hG hne hf) hne'
+  refine ⟨hA, ?_⟩
+  rw [(C14.modcovar_error _ p a' e' h' hne').1, (C14.modcovar_error x p a e h hne).1,
+    ← twist_untwist hμ (nth a'), fwdEnergy_modulate hμ, bwdEnergy_modulate hμ,
+    fwdEnergy_congr x p hag, bwdEnergy_congr x p hag]
+
+/-- Marple's normalisation (`arcovar_marple`, `modcovar_marple`: the error divided by the number `N-p`,
+`2(N-p)` of prediction equations — the same number for the modulated data): same conclusions. -/
+theorem covarMarple_mod_unique [IsZero K] {μ : K} (hμ : μ * star μ = 1) (x : List K) (p : ℕ)
+    (a a' : List K) (e e' : K) :
+    (arcovarMarple x p = some (a, e) → arcovarMarple (modulate μ x) p = some (a', e') →
+      NormalEq (col0 (corrmtx x p .covariance)) (colR (corrmtx x p .covariance))
+        (x.length - p) p (nth a) →
+      NormalEq (col0 (corrmtx (modulate μ x) p .covariance))
+        (colR (corrmtx (modulate μ x) p .covariance)) ((modulate μ x).length - p) p (nth a') →
+      GramInj (colR (corrmtx x p .covariance)) (x.length - p) p → a' = twist μ a ∧ e' = e) ∧
+    (modcovarMarple x p = some (a, e) → modcovarMarple (modulate μ x) p = some (a', e') →
+      NormalEq (col0 (corrmtx x p .modified)) (colR (corrmtx x p .modified))
+        (2 * (x.length - p)) p (nth a) →
+      NormalEq (col0 (corrmtx (modulate μ x) p .modified))
+        (colR (corrmtx (modulate μ x) p .modified)) (2 * ((modulate μ x).length - p)) p (nth a') →
+      GramInj (colR (corrmtx x p .modified)) (2 * (x.length - p)) p → a' = twist μ a ∧ e' = e) := by
+  constructor
+  · intro h h' hne hne' hG
+    obtain ⟨e0, h0, rfl⟩ := (C14.arcovarMarple_iff x p a e).mp h
+    obtain ⟨e1, h1, rfl⟩ := (C14.arcovarMarple_iff _ p a' e').mp h'
+    obtain ⟨hA, hE⟩ := arcovar_mod_unique hμ x p a a' e0 e1 h0 h1 hne hne' hG
+    rw [hA, hE, modulate_length]
+    exact ⟨rfl, rfl⟩
+  · intro h h' hne hne' hG
+    obtain ⟨e0, h0, rfl⟩ := (C14.modcovarMarple_iff x p a e).mp h
+    obtain ⟨e1, h1, rfl⟩ := (C14.modcovarMarple_iff _ p a' e').mp h'
+    obtain ⟨hA, hE⟩ := modcovar_mod_unique hμ x p a a' e0 e1 h0 h1 hne hne' hG
+    rw [hA, hE, modulate_length]
+    exact ⟨rfl, rfl⟩
+
+/-- **covariance-method spectrum shift covariance** (`pcovar`): under the hypotheses of
+`arcovar_mod_unique` with `μ = ω⁻¹^m`, the two-sided spectrum `arma2psd(A=a', rho=e')` of the modulated
+data is the spectrum `arma2psd(A=a, rho=e)` of the data rotated by `m` bins. -/
+theorem covar_psd_shift [IsZero K] {ω : K} {nfft : ℕ} (hω : ω ^ nfft = 1) (hstar : star ω = ω⁻¹)
+    (x : List K) (p : ℕ) (T : K) {m : ℕ} (hm : m < nfft) (a a' : List K) (e e' : K)
+    (h : arcovar x p = some (a, e)) (h' : arcovar (modulate (ω⁻¹ ^ m) x) p = some (a', e'))
+    (hne : NormalEq (col0 (corrmtx x p .covariance)) (colR (corrmtx x p .covariance))
+      (x.length - p) p (nth a))
+    (hne' : NormalEq (col0 (corrmtx (modulate (ω⁻¹ ^ m) x) p .covariance))
+      (colR (corrmtx (modulate (ω⁻¹ ^ m) x) p .covariance))
+      ((modulate (ω⁻¹ ^ m) x).length - p) p (nth a'))
+    (hG : GramInj (colR (corrmtx x p .covariance)) (x.length - p) p) :
+    arma2psd (twiddles ω nfft) (some a') none e' T nfft
+      = cshift (arma2psd (twiddles ω nfft) (some a) none e T nfft) m := by
+  have hn : 0 < nfft := by omega
+  have hμ := unimod_inv_pow (ne_zero_of_pow_eq_one hn hω) hstar m
+  obtain ⟨hA, hE⟩ := arcovar_mod_unique hμ x p a a' e e' h h' hne hne' hG
+  rw [hA, hE]
+  exact arma2psd_mod_roll hω (some _) none _ T hm
+
+/-- **modified-covariance spectrum shift covariance** (`pmodcovar`) -/
+theorem modcovar_psd_shift [IsZero K] {ω : K} {nfft : ℕ} (hω : ω ^ nfft = 1) (hstar : star ω = ω⁻¹)
+    (x : List K) (p : ℕ) (T : K) {m : ℕ} (hm : m < nfft) (a a' : List K) (e e' : K)
+    (h : modcovar x p = some (a, e)) (h' : modcovar (modulate (ω⁻¹ ^ m) x) p = some (a', e'))
+    (hne : NormalEq (col0 (corrmtx x p .modified)) (colR (corrmtx x p .modified))
+      (2 * (x.length - p)) p (nth a))
+    (hne' : NormalEq (col0 (corrmtx (modulate (ω⁻¹ ^ m) x) p .modified))
+      (colR (corrmtx (modulate (ω⁻¹ ^ m) x) p .modified))
+      (2 * ((modulate (ω⁻¹ ^ m) x).length - p)) p (nth a'))
+    (hG : GramInj (colR (corrmtx x p .modified)) (2 * (x.length - p)) p) :
+    arma2psd (twiddles ω nfft) (some a') none e' T nfft
+      = cshift (arma2psd (twiddles ω nfft) (some a) none e T nfft) m := by
+  have hn : 0 < nfft := by omega
+  have hμ := unimod_inv_pow (ne_zero_of_pow_eq_one hn hω) hstar m
+  obtain ⟨hA, hE⟩ := modcovar_mod_unique hμ x p a a' e e' h h' hne hne' hG
+  rw [hA, hE]
+  exact arma2psd_mod_roll hω (some _) none _ T hm
+
+/-- **covariance method on conjugated data** (mirror clause): `conj ∘ a` satisfies the normal equations of
+the 'covariance' data matrix of `conj x` iff `a` satisfies those of `x`; same forward energy. -/
+theorem arcovar_conj (x : List K) (p : ℕ) (a : ℕ → K) :
+    (NormalEq (col0 (corrmtx (x.map star) p .covariance))
+        (colR (corrmtx (x.map star) p .covariance)) ((x.map star).length - p) p
+        (fun j => star (a j))
+      ↔ NormalEq (col0 (corrmtx x p .covariance)) (colR (corrmtx x p .covariance))
+          (x.length - p) p a) ∧
+    fwdEnergy (x.map star) p (fun j => star (a j)) = fwdEnergy x p a :=
+  ⟨covariance_normalEq_map_star x p a, fwdEnergy_map_star x p a⟩
+
+/-- **modified covariance method on conjugated data** -/
+theorem modcovar_conj (x : List K) (p : ℕ) (a : ℕ → K) :
+    (NormalEq (col0 (corrmtx (x.map star) p .modified))
+        (colR (corrmtx (x.map star) p .modified)) (2 * ((x.map star).length - p)) p
+        (fun j => star (a j))
+      ↔ NormalEq (col0 (corrmtx x p .modified)) (colR (corrmtx x p .modified))
+          (2 * (x.length - p)) p a) ∧
+    fwdEnergy (x.map star) p (fun j => star (a j)) + bwdEnergy (x.map star) p (fun j => star (a j))
+      = fwdEnergy x p a + bwdEnergy x p a :=
+  ⟨modified_normalEq_map_star x p a, by rw [fwdEnergy_map_star, bwdEnergy_map_star]⟩
+
+/-- **`arcovar` on conjugated data**: under the solver contract for both calls and uniqueness for `x`,
+the coefficients are conjugated and the error is the same. -/
+theorem arcovar_conj_unique [IsZero K] (x : List K) (p : ℕ) (a a' : List K) (e e' : K)
+    (h : arcovar x p = some (a, e)) (h' : arcovar (x.map star) p = some (a', e'))
+    (hne : NormalEq (col0 (corrmtx x p .covariance)) (colR (corrmtx x p .covariance))
+      (x.length - p) p (nth a))
+    (hne' : NormalEq (col0 (corrmtx (x.map star) p .covariance))
+      (colR (corrmtx (x.map star) p .covariance)) ((x.map star).length - p) p (nth a'))
+    (hG : GramInj (colR (corrmtx x p .covariance)) (x.length - p) p) :
+    a' = a.map star ∧ e' = e := by
+  obtain ⟨hag, hA⟩ := map_star_of_unique (ArmaEstL.arcovar_length x p a e h)
+    (ArmaEstL.arcovar_length _ p a' e' h')
+    (P := fun f => NormalEq (col0 (corrmtx x p .covariance)) (colR (corrmtx x p .covariance))
+      (x.length - p) p f)
+    (P' := fun f => NormalEq (col0 (corrmtx (x.map star) p .covariance))
+      (colR (corrmtx (x.map star) p .covariance)) ((x.map star).length - p) p f)
+    (fun f => covariance_normalEq_map_star x p f) (fun f hf => normalEq_unique hG hne hf) hne'
+  refine ⟨hA, ?_⟩
+  rw [(C14.arcovar_error _ p a' e' h' hne').1, (C14.arcovar_error x p a e h hne).1,
+    ← star_star_fun (nth a'), fwdEnergy_map_star]
+  exact fwdEnergy_congr x p hag
+
+/-- **`modcovar` on conjugated data** -/
+theorem modcovar_conj_unique [IsZero K] (x : List K) (p : ℕ) (a a' : List K) (e e' : K)
+    (h : modcovar x p = some (a, e)) (h' : modcovar (x.map star) p = some (a', e'))
+    (hne : NormalEq (col0 (corrmtx x p .modified)) (colR (corrmtx x p .modified))
+      (2 * (x.length - p)) p (nth a))
+    (hne' : NormalEq (col0 (corrmtx (x.map star) p .modified))
+      (colR (corrmtx (x.map star) p .modified)) (2 * ((x.map star).length - p)) p (nth a'))
+    (hG : GramInj (colR (corrmtx x p .modified)) (2 * (x.length - p)) p) :
+    a' = a.map star ∧ e' = e := by
+  obtain ⟨hag, hA⟩ := map_star_of_unique (ArmaEstL.lsFit_length _ _ p a e h)
+    (ArmaEstL.lsFit_length _ _ p a' e' h')
+    (P := fun f => NormalEq (col0 (corrmtx x p .modified)) (colR (corrmtx x p .modified))
+      (2 * (x.length - p)) p f)
+    (P' := fun f => NormalEq (col0 (corrmtx (x.map star) p .modified))
+      (colR (corrmtx (x.map star) p .modified)) (2 * ((x.map star).length - p)) p f)
+    (fun f => modified_normalEq_map_star x p f) (fun f hf => normalEq_unique hG hne hf) hne'
+  refine ⟨hA, ?_⟩
+  rw [(C14.modcovar_error _ p a' e' h' hne').1, (C14.modcovar_error x p a e h hne).1,
+    ← star_star_fun (nth a'), fwdEnergy_map_star, bwdEnergy_map_star,
+    fwdEnergy_congr x p hag, bwdEnergy_congr x p hag]
+
+/-- **covariance-method spectrum mirror**: the spectrum of the conjugated data is the spectrum of the data
+with bins `k` and `-k (mod NFFT)` swapped. -/
+theorem covar_psd_mirror [IsZero K] {ω : K} {nfft : ℕ} (hω : ω ^ nfft = 1) (hstar : star ω = ω⁻¹)
+    (x : List K) (p : ℕ) (T : K) (a a' : List K) (e e' : K)
+    (h : arcovar x p = some (a, e)) (h' : arcovar (x.map star) p = some (a', e'))
+    (hne : NormalEq (col0 (corrmtx x p .covariance)) (colR (corrmtx x p .covariance))
+      (x.length - p) p (nth a))
+    (hne' : NormalEq (col0 (corrmtx (x.map star) p .covariance))
+      (colR (corrmtx (x.map star) p .covariance)) ((x.map star).length - p) p (nth a'))
+    (hG : GramInj (colR (corrmtx x p .covariance)) (x.length - p) p) {k : ℕ} (hk : k < nfft) :
+    nth (arma2psd (twiddles ω nfft) (some a') none e' T nfft) k
+      = nth (arma2psd (twiddles ω nfft) (some a) none e T nfft) ((nfft - k) % nfft) := by
+  obtain ⟨hA, hE⟩ := arcovar_conj_unique x p a a' e e' h h' hne hne' hG
+  rw [hA, hE]
+  exact arma2psd_conj hω hstar (some a) none e T hk
+
+/-- **modified-covariance spectrum mirror** -/
+theorem modcovar_psd_mirror [IsZero K] {ω : K} {nfft : ℕ} (hω : ω ^ nfft = 1)
+    (hstar : star ω = ω⁻¹) (x : List K) (p : ℕ) (T : K) (a a' : List K) (e e' : K)
+    (h : modcovar x p = some (a, e)) (h' : modcovar (x.map star) p = some (a', e'))
+    (hne : NormalEq (col0 (corrmtx x p .modified)) (colR (corrmtx x p .modified))
+      (2 * (x.length - p)) p (nth a))
+    (hne' : NormalEq (col0 (corrmtx (x.map star) p .modified))
+      (colR (corrmtx (x.map star) p .modified)) (2 * ((x.map star).length - p)) p (nth a'))
+    (hG : GramInj (colR (corrmtx x p .modified)) (2 * (x.length - p)) p) {k : ℕ} (hk : k < nfft) :
+    nth (arma2psd (twiddles ω nfft) (some a') none e' T nfft) k
+      = nth (arma2psd (twiddles ω nfft) (some a) none e T nfft) ((nfft - k) % nfft) := by
+  obtain ⟨hA, hE⟩ := modcovar_conj_unique x p a a' e e' h h' hne hne' hG
+  rw [hA, hE]
+  exact arma2psd_conj hω hstar (some a) none e T hk
+
+section CovarExamples
+
+/-- a zero test on `ℝ` for the examples (the executable instances are `CRat` / `CFloat`) -/
+noncomputable local instance : IsZero ℝ := ⟨fun q => decide (q = 0)⟩
+
+/-- hypotheses of `arcovar_mod_unique` / `covar_psd_shift` (`K = ℝ`, `μ = -1 = ω⁻¹`, `NFFT = 2`, `m = 1`):
+on `x = [1,2,3,5]`, `p = 1` the model returns `a = -23/14`, `e = 3/14`; on the modulated data
+`[1,-2,3,-5]` it returns the twisted `a' = +23/14` and the same `e`; both satisfy their normal equations,
+and the regressor column `[1,2,3]ᵀ` has full rank, so the Gram matrix is nonsingular. -/
+example :
+    ((-1 : ℝ) * star (-1 : ℝ) = 1) ∧ modulate (-1 : ℝ) [1, 2, 3, 5] = [1, -2, 3, -5] ∧
+    arcovar ([1, 2, 3, 5] : List ℝ) 1 = some ([-23/14], 3/14) ∧
+    arcovar (modulate (-1 : ℝ) [1, 2, 3, 5]) 1 = some ([23/14], 3/14) ∧
+    twist (-1 : ℝ) [-23/14] = [23/14] ∧
+    NormalEq (col0 (corrmtx ([1, 2, 3, 5] : List ℝ) 1 .covariance))
+      (colR (corrmtx ([1, 2, 3, 5] : List ℝ) 1 .covariance))
+      (([1, 2, 3, 5] : List ℝ).length - 1) 1 (nth [-23/14]) ∧
+    NormalEq (col0 (corrmtx (modulate (-1 : ℝ) [1, 2, 3, 5]) 1 .covariance))
+      (colR (corrmtx (modulate (-1 : ℝ) [1, 2, 3, 5]) 1 .covariance))
+      ((modulate (-1 : ℝ) [1, 2, 3, 5]).length - 1) 1 (nth [23/14]) ∧
+    GramInj (colR (corrmtx ([1, 2, 3, 5] : List ℝ) 1 .covariance))
+      (([1, 2, 3, 5] : List ℝ).length - 1) 1 := by
+  have hmod : modulate (-1 : ℝ) [1, 2, 3, 5] = [1, -2, 3, -5] := by
+    simp [modulate, vec, nth, List.range, List.range.loop]
+    norm_num
+  rw [hmod]
+  refine ⟨by simp, rfl, ?_, ?_, ?_, ?_, ?_, ?_⟩
+  · simp [arcovar, lsFit, lstsq, solveVec, solveMat, gjStep, conjT, matMul, matVec, corrmtx,
+      mentryM, vec, nth, sumR, isZero, List.range_succ, Finset.sum_range_succ]
+    norm_num
+  · simp [arcovar, lsFit, lstsq, solveVec, solveMat, gjStep, conjT, matMul, matVec, corrmtx,
+      mentryM, vec, nth, sumR, isZero, List.range_succ, Finset.sum_range_succ]
+    norm_num
+  · simp [twist, vec, nth, List.range, List.range.loop]
+    norm_num
+  · rw [C14.covariance_normalEq_iff]
+    intro b hb
+    have : b = 0 := by omega
+    subst this
+    simp [fwdErr, nth, Finset.sum_Ico_eq_sum_range, Finset.sum_range_succ]
+    norm_num
+  · rw [C14.covariance_normalEq_iff]
+    intro b hb
+    have : b = 0 := by omega
+    subst this
+    simp [fwdErr, nth, Finset.sum_Ico_eq_sum_range, Finset.sum_range_succ]
+    norm_num
+  · apply ls_gramInj_of_fullColRank
+    intro d hd j hj
+    have : j = 0 := by omega
+    subst this
+    have h0 := hd 0 (by simp)
+    rw [Finset.sum_range_one] at h0
+    unfold colR at h0
+    rw [mentryM_eq_mentry, (C09.corrmtx_covariance_entry _ 1 0 1 (by simp) (by norm_num)).1] at h0
+    simpa [nth] using h0
+
+/-- hypotheses of `modcovar_mod_unique` / `modcovar_psd_shift` on the same data: `modcovar` returns
+`a = -23/26`, `e = 147/13` on `[1,2,3,5]` and the twisted `a' = +23/26`, same `e`, on `[1,-2,3,-5]`. -/
+example :
+    modcovar ([1, 2, 3, 5] : List ℝ) 1 = some ([-23/26], 147/13) ∧
+    modcovar ([1, -2, 3, -5] : List ℝ) 1 = some ([23/26], 147/13) ∧
+    NormalEq (col0 (corrmtx ([1, -2, 3, -5] : List ℝ) 1 .modified))
+      (colR (corrmtx ([1, -2, 3, -5] : List ℝ) 1 .modified))
+      (2 * (([1, -2, 3, -5] : List ℝ).length - 1)) 1 (nth [23/26]) ∧
+    GramInj (colR (corrmtx ([1, 2, 3, 5] : List ℝ) 1 .modified))
+      (2 * (([1, 2, 3, 5] : List ℝ).length - 1)) 1 := by
+  refine ⟨?_, ?_, ?_, ?_⟩
+  · simp [modcovar, lsFit, lstsq, solveVec, solveMat, gjStep, conjT, matMul, matVec, corrmtx,
+      mentryM, vec, nth, sumR, isZero, List.range_succ, Finset.sum_range_succ]
+    norm_num
+  · simp [modcovar, lsFit, lstsq, solveVec, solveMat, gjStep, conjT, matMul, matVec, corrmtx,
+      mentryM, vec, nth, sumR, isZero, List.range_succ, Finset.sum_range_succ]
+    norm_num
+  · rw [C14.modified_normalEq_iff]
+    intro b hb
+    have : b = 0 := by omega
+    subst this
+    simp [fwdErr, bwdErr, nth, Finset.sum_Ico_eq_sum_range, Finset.sum_range_succ]
+    norm_num
+  · apply ls_gramInj_of_fullColRank
+    intro d hd j hj
+    have : j = 0 := by omega
+    subst this
+    have h0 := hd 0 (by simp)
+    rw [Finset.sum_range_one] at h0
+    unfold colR at h0
+    rw [mentryM_eq_mentry, (C09.corrmtx_modified_entry _ 1 0 1 (by simp) (by norm_num)).1] at h0
+    simpa [nth] using h0
+
+end CovarExamples
 
 /-! ### non-vacuity -/
 
